@@ -73,6 +73,7 @@ MODELLED = {
     "SingleAxisFiniteDifference", "FiniteDifference", "DFT", "CircularConvolve", "Convolve", "ConvolveByX", "Pad", "Crop",
     "Reshape", "Transpose", "Sum", "Slice", "VerticalStack", "DiagonalStack", "DiagonalReplicated", "XRayTransform2D",
     "SingleAxisFiniteSum", "FiniteSum", "SingleAxisHaarTransform", "HaarTransform",
+    "ProjectedGradient", "PolarGradient", "CylindricalGradient", "SphericalGradient",
 }
 HIPREC = {"DFT": np.complex128, "XRayTransform2D": np.float64, "XRayTransform3D": np.float64}
 
@@ -144,12 +145,19 @@ class Lean:
             xs = self.xs(_prod(sh))
             r = self.m.call("fdnd", shape=sh, axes=axes, prepend=c["prepend"], append=c["append"], circular=c["circular"], xs=[fs2b(x) for x in xs])
             return _mat(r["mat"]), (xs, [np.array(b2fs(y)) for y in r["ys"]])
-        if name == "Pad" and c["mode"] == "constant" and real:
+        if name == "Pad" and c["mode"] in ("constant", "edge", "wrap", "reflect", "symmetric", "mean") and real:
             import linops_ref
 
             w = linops_ref._pw(c["pad_width"], len(c["shape"]))
             xs = self.xs(_prod(c["shape"]))
-            D, ys, _ = self.chain(c["shape"], [(ax, {"kind": "pad", "lo": lo, "hi": hi}) for ax, (lo, hi) in enumerate(w)], xs)
+            if c["mode"] == "constant":
+                spec = lambda lo, hi: {"kind": "pad", "lo": lo, "hi": hi}  # noqa: E731
+            elif c["mode"] == "mean":
+                spec = lambda lo, hi: {"kind": "padmean", "lo": lo, "hi": hi}  # noqa: E731
+            else:
+                spec = lambda lo, hi: {"kind": "padmode", "mode": c["mode"], "lo": lo, "hi": hi}  # noqa: E731
+            # numpy pads one axis after the other (corners are pads of pads): the same chain of 1-d maps
+            D, ys, _ = self.chain(c["shape"], [(ax, spec(lo, hi)) for ax, (lo, hi) in enumerate(w)], xs)
             return D, (xs, ys)
         if name == "Crop" and real:
             import linops_ref
@@ -159,10 +167,8 @@ class Lean:
             D, ys, _ = self.chain(c["shape"], [(ax, {"kind": "crop", "lo": lo, "hi": hi}) for ax, (lo, hi) in enumerate(w)], xs)
             return D, (xs, ys)
         if name == "Slice" and real:
-            idx = list(opgrid._idx_dec(c["idx"]))
+            idx = [i for i in opgrid._idx_dec(c["idx"]) if i is not None]
             nd = len(c["shape"])
-            if any(i is None for i in idx):
-                return None
             if Ellipsis in idx:
                 k = idx.index(Ellipsis)
                 idx = idx[:k] + [slice(None)] * (nd - (len(idx) - 1)) + idx[k + 1 :]
@@ -205,11 +211,18 @@ class Lean:
             return np.eye(n), None
         if name == "CircularConvolve":
             return self.circ(c)
-        if name in ("Convolve", "ConvolveByX") and len(c["shape"]) == 1 and c["dtype"] != "complex128" and c["h"]["im"] is None:
+        if name in ("Convolve", "ConvolveByX") and c["dtype"] != "complex128" and c["h"]["im"] is None:
             h = opgrid.dec(c["h"])
-            xs = self.xs(c["shape"][0])
-            r = self.m.call("op1", spec={"kind": "conv" if name == "Convolve" else "convbyx", "n": c["shape"][0], "mode": c["mode"], "h": fs2b(h)}, xs=[fs2b(x) for x in xs])
-            return _mat(r["mat"]), (xs, [np.array(b2fs(y)) for y in r["ys"]])
+            xs = self.xs(_prod(c["shape"]))
+            rn = self.m.call("convnd", dims=c["shape"], ks=list(h.shape), mode=c["mode"], byx=(name == "ConvolveByX"), h=fs2b(h.ravel()), xs=[fs2b(x) for x in xs])
+            if tuple(rn["oshape"]) != tuple(op.output_shape):
+                return np.zeros((0, 0)), None
+            Dn = _mat(rn["mat"])
+            if len(c["shape"]) == 1:  # the 1-d definitions of C04_conv_modes must give the same matrix
+                r = self.m.call("op1", spec={"kind": "conv" if name == "Convolve" else "convbyx", "n": c["shape"][0], "mode": c["mode"], "h": fs2b(h)}, xs=[fs2b(x) for x in xs])
+                if not np.array_equal(_mat(r["mat"]), Dn):
+                    raise common.Infra("model: 1-d and N-d convolution matrices differ")
+            return Dn, (xs, [np.array(b2fs(y)) for y in rn["ys"]])
         if name in ("VerticalStack", "DiagonalStack"):
             subs = [opgrid.build(n, cc) for n, cc in c["ops"]]
             Ms = [opgrid.dense(s) for s in subs]
@@ -244,6 +257,26 @@ class Lean:
             P2 = np.zeros((mo, mo))
             P2[np.arange(mo), r3["src"]] = 1
             return P2 @ _mat(r2["mat"]) @ P1, None
+        if name in ("ProjectedGradient", "PolarGradient", "CylindricalGradient", "SphericalGradient") and real:
+            import linops_ref
+
+            sh = c["shape"]
+            N = _prod(sh)
+            axes, coords = linops_ref.proj_coords(name, c)
+            spec = {"kind": "cdiff"} if c["cdiff"] else {"kind": "fd", "prepend": None, "append": 0, "circular": False}
+            Gs = [self.chain(sh, [(a % len(sh), spec)], [])[0] for a in axes]
+            xs = self.xs(N)
+            if coords is None:
+                r = self.m.call("vstack", blocks=[_blk(G) for G in Gs], n=N, xs=[fs2b(x) for x in xs])
+                return _mat(r["mat"]), (xs, [np.array(b2fs(y)) for y in r["ys"]])
+            mats, ys = [], [[] for _ in xs]
+            for cs in coords:
+                fields = [fs2b(np.broadcast_to(np.asarray(cm, dtype=np.float64), sh).ravel()) for cm in cs]
+                r = self.m.call("proj", coords=fields, grads=[_blk(G) for G in Gs], n=N, xs=[fs2b(x) for x in xs])
+                mats.append(_mat(r["mat"]))
+                for k, y in enumerate(r["ys"]):
+                    ys[k].append(np.array(b2fs(y)))
+            return np.vstack(mats), (xs, [np.concatenate(y) for y in ys])
         if name in ("SingleAxisFiniteSum", "FiniteSum", "SingleAxisHaarTransform", "HaarTransform") and real:
             sh = c["shape"]
             nd = len(sh)
@@ -266,6 +299,83 @@ class Lean:
         return None
 
     def circ(self, c):
+        """(a) DFT-domain path of the code (`circspec`: spectrum of the filter times the constructor's shift phases, or
+        the given spectrum; ifftn(H . fftn x)) for every configuration: any ndims, fractional centres, h_is_dft, complex
+        data; (b) for integer centres also the signal-domain N-d circulant (`circnd`); (c) for the simple 1-d real cases
+        the structure (batch / multi-filter) through the Lean lift / vstack / dstack as before.  All must agree."""
+        import opgrid
+
+        old = self.circ_1d(c)
+        gen = self.circ_general(c)
+        if gen is None:
+            return old
+        D, ev = gen
+        if old is not None:
+            if old[0].shape != D.shape or not _close(old[0], D, 1e-12):
+                raise common.Infra("model: 1-d structured and general circular-convolution matrices differ")
+            ev = old[1] if ev is None else ev
+        return D, ev
+
+    def circ_general(self, c):
+        import opgrid
+
+        xs_shape = list(c["shape"])
+        if c["route"] == "from_operator":
+            if c["inner"] != "circ":
+                return None
+            c = dict(c, route="init", h_center=None, h_is_dft=False)
+        nd = c["ndims"] if c["ndims"] is not None else len(xs_shape)
+        dims = xs_shape[len(xs_shape) - nd:]
+        bx = xs_shape[: len(xs_shape) - nd]
+        N = _prod(dims)
+        h = np.asarray(opgrid.dec(c["h"]))
+        cplx_x = c["dtype"] == "complex128"
+        if c["h_is_dft"]:
+            bh = list(h.shape[: h.ndim - nd])
+            filt = h.reshape([_prod(bh)] + [N]).astype(np.complex128)
+            real_out = not cplx_x
+            mats = [_cmat(self.m.call("circspec", dims=dims, hre=fs2b(f.real), him=fs2b(f.imag), h_is_dft=True, xs=[])["mat"]) for f in filt]
+        else:
+            ks = list(h.shape[h.ndim - nd:])
+            bh = list(h.shape[: h.ndim - nd])
+            hc = c["h_center"]
+            cen = [0.0] * nd if hc is None else ([float(hc)] if isinstance(hc, (int, float)) else [float(v) for v in hc])
+            if len(cen) != nd:
+                return None
+            integer = all(float(v) == int(v) for v in cen)
+            filt = h.reshape([_prod(bh)] + ks).astype(np.complex128)
+            real_out = not (np.iscomplexobj(h) or cplx_x)
+            mats = []
+            for f in filt:
+                Ms = _cmat(self.m.call("circspec", dims=dims, ks=ks, hre=fs2b(f.real.ravel()), him=fs2b(f.imag.ravel()), center=fs2b(cen), h_is_dft=False, xs=[])["mat"])
+                if integer:  # signal-domain definition (C04_circ_nd) with the centre reduced modulo the axis length (C04_circ_phase_integer)
+                    r = self.m.call("circnd", dims=dims, ks=ks, cs=[int(v) % n for v, n in zip(cen, dims)], hre=fs2b(f.real.ravel()), him=fs2b(f.imag.ravel()))
+                    Mc, Me = _cmat(r["mat"]), _cmat(r["eval"])
+                    self.count("circ-signal-domain")
+                    if not (_close(Mc, Ms, 1e-12) and _close(Me, Mc, 1e-12)):
+                        raise common.Infra("model: DFT-domain and signal-domain circular convolution differ (convolution theorem)")
+                mats.append(Ms)
+        self.count("circ-dft-domain")
+        # numpy broadcasting of the leading (batch / filter) axes
+        try:
+            bo = list(np.broadcast_shapes(tuple(bh), tuple(bx)))
+        except ValueError:
+            return None
+        M = np.zeros((_prod(bo) * N, _prod(bx) * N), dtype=complex)
+        for o in np.ndindex(*bo) if bo else [()]:
+            fi = tuple(o[len(bo) - len(bh) + t] if bh[t] != 1 else 0 for t in range(len(bh)))
+            xi = tuple(o[len(bo) - len(bx) + t] if bx[t] != 1 else 0 for t in range(len(bx)))
+            ro = int(np.ravel_multi_index(o, bo)) if bo else 0
+            cx = int(np.ravel_multi_index(xi, bx)) if bx else 0
+            fk = int(np.ravel_multi_index(fi, bh)) if bh else 0
+            M[ro * N:(ro + 1) * N, cx * N:(cx + 1) * N] += mats[fk]
+        return (M.real if real_out else M), None
+
+    def count(self, key):
+        if getattr(self, "ctx", None) is not None:
+            self.ctx.count(key)
+
+    def circ_1d(self, c):
         import opgrid
 
         if c["dtype"] == "complex128" or ("h" in c and c["h"]["im"] is not None):
@@ -372,9 +482,13 @@ def make_oracle(rng_seed=12345):
             if cplx:
                 x = x + 1j * common.dyadic(rng, (n,), bits=3, scale=2.0)
             try:
-                y = opgrid.flat(fn(opgrid.unflat(x, shape_in, dt or op.input_dtype)))
+                yraw = fn(opgrid.unflat(x, shape_in, dt or op.input_dtype))
+                y = opgrid.flat(yraw)
             except Exception as e:  # noqa: BLE001
                 return {"class": name, "config": c, "x": [str(v) for v in x], "evaluation_raised": repr(e)[:300]}
+            if what != "inverse" and not opgrid._is_nested(op.output_shape) and hasattr(yraw, "shape") and tuple(yraw.shape) != tuple(op.output_shape):
+                return {"class": name, "config": c, "x": [str(v) for v in x.tolist()], "returned_shape": list(yraw.shape),
+                        "declared_output_shape": [int(v) for v in op.output_shape]}
             want = D @ x
             if y.shape != want.shape or not _close(y, want, tol):
                 return {"class": name, "config": c, "check": what, "x": [str(v) for v in x.tolist()],
@@ -417,6 +531,13 @@ def check_config(ctx, lean, oracle, name, c, op):
     if R.shape != declared:
         ctx.disagree(f"{name}.shape", case, list(R.shape), list(declared), oracle=oracle)
         return
+    if name == "Slice":  # declared output shape (indexed_shape) = shape numpy gives for the same index expression
+        want = tuple(np.zeros(c["shape"])[opgrid._idx_dec(c["idx"])].shape)
+        ctx.count("slice-shape-checked")
+        if tuple(op.output_shape) != want:
+            ctx.disagree("linops.Slice.output_shape", case, list(op.output_shape), list(want), oracle=oracle,
+                         note="declared output shape differs from the shape of x[idx]")
+            return
     L = lean.build(name, c, op)
     if L is not None:
         ctx.count("lean-documented-matrix")
@@ -596,7 +717,7 @@ def dft_checks(ctx, lean, oracle, c, op, case):
     mdl = {k: r[k] for k in impl}
     ctx.count("dft-bookkeeping")
     if impl != mdl:
-        ctx.disagree("linops.DFT.init", case, impl, mdl, oracle=oracle, note="axes / output_shape / inv_axes_shape bookkeeping differs")
+        ctx.disagree("linops.DFT.init", dict(case, check="inverse"), impl, mdl, oracle=_inv_oracle, note="axes / output_shape / inv_axes_shape bookkeeping differs")
         return
     # forward transform from the Lean 1-d matrices
     axes, ash = linops_ref.dft_axes(c)
@@ -610,6 +731,14 @@ def dft_checks(ctx, lean, oracle, c, op, case):
     if not _close(R, D, 1e-9):
         ctx.disagree("linops.DFT.matrix", case, _summ(R), _summ(D), oracle=oracle, note="Lean 1-d DFT matrices lifted to the axes differ from the real operator")
         return
+    if sorted(axes) == list(range(len(c["shape"]))) and all(m == c["shape"][a] for a, m in zip(axes, ash)) and _prod(c["shape"]) <= 12:
+        # the N-d definition of C04_dft_nd_inv (all axes, transform size = input size): forward and inverse matrices
+        Dn = _cmat(lean.m.call("dftnd", dims=c["shape"], norm=c["norm"] or "backward", inv=False))
+        Di_n = _cmat(lean.m.call("dftnd", dims=c["shape"], norm=c["norm"] or "backward", inv=True))
+        ctx.count("dft-nd-definition")
+        if not (_close(R, Dn, 1e-9) and _close(Di_n @ Dn, np.eye(Dn.shape[0]), 1e-9)):
+            ctx.disagree("linops.DFT.nd", case, _summ(R), _summ(Dn), oracle=oracle, note="N-d DFT definition of the model differs from the real operator")
+            return
     # inverse as coded (crop / pad of the spectrum) from the Lean model
     n_out = _prod(op.output_shape)
     Rinv = opgrid.dense(op, fn=None, dtype=np.complex128) if False else None
@@ -701,6 +830,7 @@ def correspond(ctx, model):
     import opgrid
 
     lean = Lean(model, ctx.rng)
+    lean.ctx = ctx
     oracle = make_oracle()
     # corpus first
     for fname, j in _corpus():
